@@ -11,6 +11,7 @@ import (
 	"fmt"
 	"net"
 	"strings"
+	"sync"
 
 	"github.com/foxcpp/maddy/framework/exterrors"
 	"verifkit/prng"
@@ -32,14 +33,14 @@ type chain struct {
 	Group string `json:"group"` // consistent | conflicting
 
 	// model
-	Annotated   bool   `json:"annotated"`
-	Code        int    `json:"ann_code,omitempty"`
-	Enh         [3]int `json:"ann_enh,omitempty"`
-	Msg         string `json:"ann_msg,omitempty"`
-	HasMarker   bool   `json:"has_marker"`
-	Marker      bool   `json:"marker_temporary,omitempty"`
-	HasDeadline bool   `json:"has_deadline,omitempty"`
-	MsgKind     string `json:"msg_kind,omitempty"`
+	Annotated   bool     `json:"annotated"`
+	Code        int      `json:"ann_code,omitempty"`
+	Enh         [3]int   `json:"ann_enh,omitempty"`
+	Msg         string   `json:"ann_msg,omitempty"`
+	HasMarker   bool     `json:"has_marker"`
+	Marker      bool     `json:"marker_temporary,omitempty"`
+	HasDeadline bool     `json:"has_deadline,omitempty"`
+	MsgKind     string   `json:"msg_kind,omitempty"`
 	Tokens      []string `json:"-"`
 }
 
@@ -98,6 +99,10 @@ func genChain(p *prng.R) *chain {
 				cp = prng.Pick(p, permCodes)
 			}
 			n.Code, n.Enh = cp.code, cp.enh
+			if p.Chance(1, 8) {
+				// a basic code only, as copied from a next hop without enhanced codes
+				n.Enh = [3]int{}
+			}
 			n.Msg, _ = genMsg(p)
 			n.Text = secretToken(p) // Reason
 		case "temp":
@@ -249,6 +254,9 @@ func (c *chain) shape() string {
 		switch n.Kind {
 		case "smtp":
 			s += fmt.Sprint(n.Code / 100)
+			if n.Enh == [3]int{} {
+				s += "noenh"
+			}
 		case "temp", "dnserr":
 			if n.Temp || n.Tmo {
 				s += "+"
@@ -261,6 +269,30 @@ func (c *chain) shape() string {
 	return strings.Join(k, ">")
 }
 
+// injected remembers the (code, enhanced code, message) triples of the
+// SMTPErrors the harness itself built, so that the passive observer can tell
+// them from the ones maddy generates.
+var (
+	injectedMu sync.Mutex
+	injected   = map[string]bool{}
+)
+
+func injectedKey(code int, enh [3]int, msg string) string {
+	return fmt.Sprintf("%d|%v|%s", code, enh, msg)
+}
+
+func resetInjected() {
+	injectedMu.Lock()
+	injected = map[string]bool{}
+	injectedMu.Unlock()
+}
+
+func wasInjected(code int, enh [3]int, msg string) bool {
+	injectedMu.Lock()
+	defer injectedMu.Unlock()
+	return injected[injectedKey(code, enh, msg)]
+}
+
 // build constructs the real error value.
 func (c *chain) build() error {
 	var err error
@@ -268,6 +300,9 @@ func (c *chain) build() error {
 		n := c.Nodes[i]
 		switch n.Kind {
 		case "smtp":
+			injectedMu.Lock()
+			injected[injectedKey(n.Code, n.Enh, n.Msg)] = true
+			injectedMu.Unlock()
 			se := &exterrors.SMTPError{
 				Code:         n.Code,
 				EnhancedCode: exterrors.EnhancedCode{n.Enh[0], n.Enh[1], n.Enh[2]},
